@@ -65,6 +65,16 @@ type Obs = Result<Vec<u64>, String>;
 
 /// run pre; (reset); post on one instance.  For ProbOrdMinHash2 (no reinit) the "reset" is implicit in hash_set.
 fn run_case(kind: &Kind, pre: &[Op], post: &[Op], flags_out: Option<&mut Vec<(&'static str, bool)>>) -> Obs {
+    run_case_opt(kind, pre, post, flags_out, true)
+}
+
+/// the reference: a NEW instance fed the post-input directly - no reset at all (a reset that damages even a new instance
+/// would otherwise damage the reference in the same way)
+fn run_new(kind: &Kind, post: &[Op]) -> Obs {
+    run_case_opt(kind, &[], post, None, false)
+}
+
+fn run_case_opt(kind: &Kind, pre: &[Op], post: &[Op], flags_out: Option<&mut Vec<(&'static str, bool)>>, do_reset: bool) -> Obs {
     let mut inst = (kind.build)();
     for op in pre {
         // errors of the pre-history are part of the history (e.g. empty slice): ignored
@@ -73,7 +83,7 @@ fn run_case(kind: &Kind, pre: &[Op], post: &[Op], flags_out: Option<&mut Vec<(&'
     if let Some(f) = flags_out {
         *f = inst.flags();
     }
-    if kind.has_reinit {
+    if kind.has_reinit && do_reset {
         if let Applied::Failed(e) = inst.apply(&Op::Reinit) {
             return Err(format!("reinit failed: {}", e));
         }
@@ -103,7 +113,7 @@ fn check_kind(kind: &Kind, pre_depth: usize, post_depth: usize) -> KindOut {
     let pres = sequences(&pre_alphabet(kind), 0, pre_depth);
     // ProbOrdMinHash2: the last post op is the hash_set call whose signature is observed
     let posts = sequences(&post_alphabet(kind), 1, post_depth);
-    let fresh: Vec<Obs> = posts.iter().map(|p| run_case(kind, &[], p, None)).collect();
+    let fresh: Vec<Obs> = posts.iter().map(|p| run_new(kind, p)).collect();
     let distinct_fresh = fresh.iter().flatten().collect::<std::collections::BTreeSet<_>>().len() as u64;
     let res: Vec<(u64, Vec<(&'static str, bool)>, Option<(Vec<Op>, Vec<Op>, String)>)> = pres
         .par_iter()
@@ -165,7 +175,7 @@ fn long_histories(kinds: &[Kind]) -> (u64, u64, Option<(String, usize, String)>)
             } else {
                 vec![Op::Item(1), Op::Item(2)]
             };
-            let fresh = run_case(kind, &[], &post, None);
+            let fresh = run_new(kind, &post);
             let mut ops = 0u64;
             let mut bad = None;
             for &c in &counts {
@@ -411,7 +421,7 @@ pub fn run(ctx: &Ctx) -> i32 {
             let pre = vec![Op::Burst(100, 12), Op::Item(2)];
             let post = vec![Op::Item(5)];
             let a = run_case(kind, &pre, &post, None);
-            let f = run_case(kind, &[], &post, None);
+            let f = run_new(kind, &post);
             ctx.sample(json!({"sketcher": kind.name, "pre": ops_json(&pre), "then": "reset", "post": ops_json(&post), "equal_to_fresh": a == f,
                 "observation_head": a.as_ref().ok().map(|v| v.iter().take(4).map(|w| format!("{:#x}", w)).collect::<Vec<_>>())}));
         }
@@ -461,7 +471,7 @@ pub fn run(ctx: &Ctx) -> i32 {
                 } else {
                     vec![Op::Item(5), Op::Item(0), Op::Item(9)]
                 };
-                let fresh = run_case(kind, &[], &post, None);
+                let fresh = run_new(kind, &post);
                 let mut n = 0;
                 for pre in pres {
                     n += 1;
@@ -543,6 +553,6 @@ pub fn replay(_ctx: &Ctx, case: &Value) -> Result<(bool, String), String> {
     let pre = ops_from_json(&case["pre"])?;
     let post = ops_from_json(&case["post"])?;
     let a = run_case(kind, &pre, &post, None);
-    let f = run_case(kind, &[], &post, None);
+    let f = run_new(kind, &post);
     Ok((a != f, format!("after reset == fresh: {}", a == f)))
 }
